@@ -278,6 +278,9 @@ func (e *Exec) Assert(c *Term, label string) {
 		return
 	}
 	e.recordViolation("assert", label, "", neg)
+	if e.Cfg.StopAfterViolation {
+		panic(pathStop{})
+	}
 	// continue on the side where the assertion holds
 	if rr := e.check(c); rr == Unsat {
 		panic(pathStop{})
